@@ -10,7 +10,8 @@ RULE = ("each case takes two parts A and B (repository proteins, cut-outs, chime
         "the 10-sweep cap are also combined with whole proteins. Oracle: every group record of each part inside "
         "either union equals its record alone (1e-7), for every conformation and AVR, and no run raises. "
         "Non-trivial: both parts have >= 2 titratable groups and >= 1 Coulomb determinant each; "
-        "distinct = distinct (digest of A, digest of B, d).")
+        "distinct = distinct (digest of A, digest of B, d)."
+        " 25 % of the built cases run all four executions with a parameter file (common charge centres, shared determinants, penalised groups kept).")
 ASSUMPTIONS = ["parts are single-conformation (alternate locations are reduced to the first)"]
 TIMEOUT = {"quick": 2400, "thorough": 14400}
 DIST = (25.001, 25.001, 26.0, 30.0, 50.0, 100.0, 500.0, 999.0, 1000.5, 1500.0, 5000.0, 10900.0)
